@@ -236,4 +236,235 @@ theorem new_custom_spec (std : Std) (names : List Str) {r : Rng Data} {hd : List
   simp only
   cases customIdx (hd.map (textOf std)) names <;> rfl
 
+/-! ## error cells -/
+
+/-- whatever the visitor asks an error cell for, it gets `CellError` with the cell's kind and the position
+    the cell deserializer was built with (`option` / `newtype_struct` re-offer the same deserializer, the
+    failure comes with the next request) -/
+theorem visitCell_error (std : Std) (kind : Nat) (pos : Pos) (t : Target) :
+    visitCell std (.error kind) pos t = .err (.cellError kind pos) := by
+  cases t <;> (try rename_i n; cases n) <;> rfl
+
+theorem convert_error (std : Std) (kind : Nat) (pos : Pos) (t : Target) (h1 : t ≠ .option)
+    (h2 : t ≠ .newtypeStruct) : convert std (.error kind) pos t = .err (.cellError kind pos) := by
+  cases t <;> (try rename_i n; cases n) <;> first | rfl | contradiction
+
+/-- An `Error` cell at relative column `i` of the `j`-th row after the header row (absolute row
+    `ρ = start.row + hdr + j`), selected as the `c`-th column: the cell deserializer handed to the record's
+    visitor (sequence or map access) carries the absolute position `(ρ, start.col + i)`, and every request
+    on it fails with `CellError{kind, pos = (ρ, start.col + i)}`. -/
+theorem error_cell_position {std : Std} {cfg : Headers} {r : Rng Data} {st : DeState} (hw : WF r)
+    (_h : new std cfg r = .ok st) (j : Nat) (row : List Data)
+    (hr : (Range.rows r)[j + hdrRows cfg r]? = some row) (i kind : Nat)
+    (hi : row[i]? = some (.error kind)) (c : Nat) (hc : st.colIdx[c]? = some i) (t : Target) :
+    (seqEvents st.colIdx row (r.sr + hdrRows cfg r + j, r.sc))[c]? =
+        some (.ok (.error kind, (r.sr + hdrRows cfg r + j, r.sc + i))) ∧
+    (∀ hs : List Str, i < hs.length →
+        .ok (hs.getD i [], .error kind, (r.sr + hdrRows cfg r + j, r.sc + i)) ∈
+          mapEvents hs st.colIdx row (r.sr + hdrRows cfg r + j, r.sc)) ∧
+    visitCell std (.error kind) (r.sr + hdrRows cfg r + j, r.sc + i) t =
+        .err (.cellError kind (r.sr + hdrRows cfg r + j, r.sc + i)) := by
+  have hl := row_length hw.inv _ row hr
+  have h0 : r.inner.length ≠ 0 := by
+    intro hz; rw [rows_nil_of_empty hz] at hr; simp at hr
+  have hwd := width_eq h0
+  have hec := hw.ec
+  have ho := hw.inv.ord h0
+  have hil : i < row.length := (List.getElem?_eq_some_iff.mp hi).1
+  have hp : cellPos (r.sr + hdrRows cfg r + j, r.sc) i = (r.sr + hdrRows cfg r + j, r.sc + i) :=
+    cellPos_eq _ _ (by simp only; omega)
+  refine ⟨?_, ?_, visitCell_error _ _ _ _⟩
+  · simp [seqEvents, List.getElem?_map, hc, hi, hp]
+  · intro hs hlt
+    unfold mapEvents
+    apply List.mem_filterMap.mpr
+    refine ⟨i, List.mem_of_getElem? hc, ?_⟩
+    have hg : hs.getD i [] = hs[i] := by simp [List.getD, List.getElem?_eq_getElem hlt]
+    have hh : hs[i]? = some hs[i] := List.getElem?_eq_getElem hlt
+    rw [hg, hi]
+    simp only [Data.isEmpty, hh, hp]
+    rfl
+
+/-- … so a record visitor that got through the cells before it fails with exactly that error -/
+theorem record_fails_at_error (std : Std) (sched : List Target) (pre post : List (DRes (Data × Pos)))
+    (kind : Nat) (pos : Pos) (hpre : (recordSeq std sched 0 pre).2 = none) :
+    (recordSeq std sched 0 (pre ++ .ok (.error kind, pos) :: post)).2 = some (.err (.cellError kind pos)) := by
+  rw [recordSeq_append_fail std sched pre 0 _ hpre]
+  simp [recordSeq, visitCell_error]
+
+/-! ## rows are independent -/
+
+/-- The result for row `j` depends only on row `j`, the first row (headers), the width and the start
+    corner: two ranges agreeing on these give the same `j`-th item, whatever their other rows hold
+    (in particular an error cell in another row does not affect it). -/
+theorem rows_independent {std : Std} {cfg : Headers} {r1 r2 : Rng Data} {st1 st2 : DeState}
+    (hw1 : WF r1) (hw2 : WF r2) (h1 : new std cfg r1 = .ok st1) (h2 : new std cfg r2 = .ok st2)
+    (hhd : (Range.rows r1)[0]? = (Range.rows r2)[0]?) (hwd : r1.width = r2.width)
+    (hst : r1.start = r2.start) (hsr : r1.sr = r2.sr) (hsc : r1.sc = r2.sc)
+    (hh : hdrRows cfg r1 = hdrRows cfg r2) (j : Nat)
+    (hrow : (Range.rows r1)[j + hdrRows cfg r1]? = (Range.rows r2)[j + hdrRows cfg r1]?)
+    (sh : Shape) (k1 k2 : Nat) (hj1 : j < k1) (hj2 : j < k2) :
+    (items sh k1 st1)[j]? = (items sh k2 st2)[j]? := by
+  obtain ⟨hc, hhs⟩ := new_static_congr h1 h2 hhd hwd hst
+  rw [items_spec hw1 h1, items_spec hw2 h2]
+  simp only [List.getElem?_map, List.getElem?_range hj1, List.getElem?_range hj2, Option.map_some]
+  rw [← hh, ← hrow, hc, hhs, hsr, hsc]
+
+/-! ## the conversion table -/
+
+/-- `Empty` as `None` / `false` / `""` / unit / no bytes -/
+theorem convert_empty (std : Std) (pos : Pos) :
+    convert std .empty pos .option = .ok .none ∧
+    convert std .empty pos .bool = .ok (.bool false) ∧
+    convert std .empty pos .str = .ok (.str []) ∧
+    convert std .empty pos .string = .ok (.str []) ∧
+    convert std .empty pos .unit = .ok .unit ∧
+    convert std .empty pos .any = .ok .unit ∧
+    convert std .empty pos .bytes = .ok (.bytes []) := ⟨rfl, rfl, rfl, rfl, rfl, rfl, rfl⟩
+
+/-- a non-empty cell is `Some` -/
+theorem convert_option_some (std : Std) (d : Data) (pos : Pos) (h : d ≠ .empty) :
+    convert std d pos .option = .ok .some := by
+  cases d <;> first | rfl | contradiction
+
+/-- numbers are not accepted for `Empty`, booleans, dates and durations -/
+theorem convert_num_rejects (std : Std) (t : NumTy) (pos : Pos) (d : Data)
+    (h : d = .empty ∨ (∃ b, d = .bool b) ∨ (∃ b, d = .dateTime b) ∨ (∃ s, d = .dateTimeIso s) ∨ (∃ s, d = .durationIso s)) :
+    convert std d pos (.num t) = .err (.custom "num") := by
+  rcases h with h | ⟨b, h⟩ | ⟨b, h⟩ | ⟨s, h⟩ | ⟨s, h⟩ <;> subst h <;> rfl
+
+/-- boolean strings: exactly the six spellings -/
+theorem convert_bool_string (std : Std) (s : Str) (pos : Pos) :
+    convert std (.string s) pos .bool =
+      if s = "TRUE".toList ∨ s = "true".toList ∨ s = "True".toList then .ok (.bool true)
+      else if s = "FALSE".toList ∨ s = "false".toList ∨ s = "False".toList then .ok (.bool false)
+      else .err (.custom "bool") := rfl
+
+/-- numbers as booleans: `≠ 0` -/
+theorem convert_bool_num (std : Std) (pos : Pos) (v : Int) (b : Nat) :
+    convert std (.int v) pos .bool = .ok (.bool (v != 0)) ∧
+    convert std (.float b) pos .bool = .ok (.bool (b % 2 ^ 63 != 0)) := ⟨rfl, rfl⟩
+
+/-- integer cells cast to an integer type that can hold them are unchanged -/
+theorem convert_int_in_range (std : Std) (t : NumTy) (ht : t.isFloat = false) (v : Int) (pos : Pos)
+    (hlo : t.lo ≤ v) (hhi : v ≤ t.hi) : convert std (.int v) pos (.num t) = .ok (.int t v) := by
+  have hw : wrapInt t v = v := by
+    cases t <;> simp [NumTy.isFloat] at ht <;>
+      simp [NumTy.lo, NumTy.hi, NumTy.signed, NumTy.bits] at hlo hhi <;>
+      simp [wrapInt, NumTy.signed, NumTy.bits] <;> omega
+  cases t <;> simp [NumTy.isFloat] at ht <;> simp [convert, convNum, hw]
+
+/-- a cast always lands in the target type's range (floats saturate, integers wrap) -/
+theorem convert_num_in_range (t : NumTy) (ht : t.isFloat = false) (b : Nat) (v : Int) :
+    (t.lo ≤ f64ToInt t b ∧ f64ToInt t b ≤ t.hi) ∧ (t.lo ≤ wrapInt t v ∧ wrapInt t v ≤ t.hi) := by
+  constructor
+  · have hle : t.lo ≤ t.hi := by
+      cases t <;> simp [NumTy.lo, NumTy.hi, NumTy.signed, NumTy.bits]
+    unfold f64ToInt clampInt
+    simp only
+    split
+    · cases t <;> simp [NumTy.isFloat] at ht <;> simp [NumTy.lo, NumTy.hi, NumTy.signed, NumTy.bits]
+    · split
+      · omega
+      · split <;> omega
+  · cases t <;> simp [NumTy.isFloat] at ht <;>
+      simp [wrapInt, NumTy.lo, NumTy.hi, NumTy.signed, NumTy.bits] <;> omega
+
+/-- a cell that is not an error never produces `CellError`, and an error cell reports its own kind and
+    the position its deserializer was built with -/
+theorem convert_no_spurious_cell_error (std : Std) (d : Data) (pos : Pos) (t : Target) (kind : Nat) (p : Pos)
+    (h : convert std d pos t = .err (.cellError kind p)) : d = .error kind ∧ p = pos := by
+  have hAny : ∀ {d}, convAny d pos = .err (.cellError kind p) → d = .error kind ∧ p = pos := by
+    intro d h; cases d <;> simp [convAny] at h ⊢ <;> exact ⟨h.1, h.2.symm⟩
+  have hStr : ∀ {d}, (strOf std d pos).map Val.str = .err (.cellError kind p) → d = .error kind ∧ p = pos := by
+    intro d h; cases d <;> simp [strOf, DRes.map] at h ⊢ <;> exact ⟨h.1, h.2.symm⟩
+  have hBytes : ∀ {d}, convBytes d pos = .err (.cellError kind p) → d = .error kind ∧ p = pos := by
+    intro d h; cases d <;> simp [convBytes] at h ⊢ <;> exact ⟨h.1, h.2.symm⟩
+  have hBool : ∀ {d}, convBool d pos = .err (.cellError kind p) → d = .error kind ∧ p = pos := by
+    intro d h
+    cases d with
+    | string s => simp only [convBool] at h; split at h <;> (try split at h) <;> simp at h
+    | error k => simp [convBool] at h ⊢; exact ⟨h.1, h.2.symm⟩
+    | _ => simp [convBool] at h
+  have hChar : ∀ {d}, convChar d pos = .err (.cellError kind p) → d = .error kind ∧ p = pos := by
+    intro d h
+    cases d with
+    | string s =>
+      cases s with
+      | nil => simp [convChar] at h
+      | cons c cs => cases cs <;> simp only [convChar] at h <;> (try split at h) <;> simp at h
+    | error k => simp [convChar] at h ⊢; exact ⟨h.1, h.2.symm⟩
+    | _ => simp [convChar] at h
+  have hUnit : ∀ {d}, convUnit d pos = .err (.cellError kind p) → d = .error kind ∧ p = pos := by
+    intro d h; cases d <;> simp [convUnit] at h ⊢ <;> exact ⟨h.1, h.2.symm⟩
+  have hEnum : ∀ {d}, convEnum d pos = .err (.cellError kind p) → d = .error kind ∧ p = pos := by
+    intro d h; cases d <;> simp [convEnum] at h ⊢ <;> exact ⟨h.1, h.2.symm⟩
+  have hNum : ∀ {d n}, convNum std n d pos = .err (.cellError kind p) → d = .error kind ∧ p = pos := by
+    intro d n h
+    cases d with
+    | string s => cases n <;> simp only [convNum] at h <;> split at h <;> simp at h
+    | error k => simp [convNum] at h ⊢; exact ⟨h.1, h.2.symm⟩
+    | float b => cases n <;> simp [convNum] at h
+    | int v => cases n <;> simp [convNum] at h
+    | _ => simp [convNum] at h
+  cases t <;> simp only [convert] at h <;>
+    first
+    | exact hAny h | exact hStr h | exact hBytes h | exact hBool h | exact hChar h | exact hUnit h
+    | exact hEnum h | exact hNum h
+    | (unfold convOption at h; split at h <;> simp at h)
+    | simp at h
+
+/-- some points of the numeric tables (casts, parsing), evaluated by the kernel -/
+theorem convert_points :
+    f64ToInt .i8 0xC05F400000000000 = -125 ∧           -- -125.0 as i8
+    f64ToInt .i8 0xC060200000000000 = -128 ∧           -- -129.0 as i8 saturates
+    f64ToInt .u8 0x406FFCCCCCCCCCCD = 255 ∧            -- 255.9 as u8 truncates
+    f64ToInt .u8 0xBFF0000000000000 = 0 ∧              -- -1.0 as u8 saturates
+    f64ToInt .i64 0x7FF8000000000000 = 0 ∧             -- NaN as i64
+    f64ToInt .i64 0x7FF0000000000000 = 9223372036854775807 ∧ -- +inf as i64
+    wrapInt .u8 (-1) = 255 ∧ wrapInt .i8 128 = -128 ∧ wrapInt .u32 4294967296 = 0 ∧
+    intToF64 9007199254740993 = 0x4340000000000000 ∧   -- 2^53+1 rounds to even
+    intToF32 16777217 = 0x4B800000 ∧
+    f64ToF32 0x3FF0000000000001 = 0x3F800000 ∧
+    f64ToF32 0x47EFFFFFF0000000 = 0x7F800000 ∧         -- f32::MAX + half ulp rounds to +inf
+    f64ToF32 0x36A0000000000000 = 0x00000001 ∧         -- smallest f32 subnormal
+    parseInt true (-128) 127 "-128".toList = some (-128) ∧ parseInt true (-128) 127 "128".toList = none ∧
+    parseInt false 0 255 "+7".toList = some 7 ∧ parseInt false 0 255 "-0".toList = none ∧
+    parseInt true (-128) 127 "+".toList = none ∧ parseInt true (-128) 127 "".toList = none ∧
+    parseInt true (-128) 127 " 1".toList = none ∧ parseInt false 0 255 "007".toList = some 7 := by
+  decide
+
+/-! ## the hypotheses are satisfiable: a concrete range away from the origin -/
+
+/-- a `Std` for the examples (no float is formatted or parsed in them) -/
+def exStd : Std := ⟨fun _ => [], fun _ => none, fun _ => none⟩
+
+/-- rows 5–7 × columns 3–4: header row `" id"`, `"b "`, then `(1, _)`, `(#NULL!, 1.5)` -/
+def exRange : Rng Data :=
+  ⟨5, 3, 7, 4, [.string " id".toList, .string "b ".toList, .int 1, .empty, .error 3, .float 0x3FF8000000000000]⟩
+
+theorem exRange_wf : WF exRange :=
+  ⟨⟨by decide, fun _ => by decide⟩, by decide, by decide⟩
+
+/-- headers selected in the opposite order, padded differently: columns 1 then 0 -/
+example : ∃ st, new exStd (.custom ["b".toList, "id ".toList]) exRange = .ok st ∧ st.colIdx = [1, 0] ∧
+    items .seq 3 st =
+      [some (.seq 2 [.ok (.empty, (6, 4)), .ok (.int 1, (6, 3))]),
+       some (.seq 2 [.ok (.float 0x3FF8000000000000, (7, 4)), .ok (.error 3, (7, 3))]),
+       none] ∧
+    sizeHint st = (2, some 2) ∧ sizeHint (nextN .seq 1 st) = (1, some 1) ∧
+    sizeHint (nextN .seq 3 st) = (0, some 0) :=
+  ⟨_, rfl, by decide, by decide, by decide, by decide, by decide⟩
+
+/-- by header name: the empty cell is skipped, the error cell fails its record at its own position (7,3) -/
+example : ∃ st, new exStd .all exRange = .ok st ∧
+    items .map 2 st =
+      [some (.map [.ok (" id".toList, .int 1, (6, 3))]),
+       some (.map [.ok (" id".toList, .error 3, (7, 3)), .ok ("b ".toList, .float 0x3FF8000000000000, (7, 4))])] ∧
+    (recordMap exStd [.any] 0 [.ok (" id".toList, .error 3, (7, 3))]).2 = some (.err (.cellError 3 (7, 3))) :=
+  ⟨_, rfl, by decide, by decide⟩
+
+example : new exStd (.custom ["b".toList, "zz ".toList, "yy".toList]) exRange = .err (.headerNotFound "zz".toList) := by
+  decide
+
 end De
